@@ -500,6 +500,11 @@ def body_offsets(B, I):
         return False, 'offsets: refused although offsets are given: %s' % (r[1],)
     if len(data_calls) != 1 or not (data_calls[0][1] == exp[0]) or not (data_calls[0][2] == exp[1]):
         return False, 'offsets: wrong offsets handed to the DATA reader (HEADER/TEXT priority)'
+    c = data_calls[0]
+    if c[3] != 'I' or not (c[4] == 5) or c[5] != [16] or c[6] is not True or c[7] is None or \
+            len(c[7]) != 1 or not (c[7][0] == 1024):
+        return False, 'offsets: datatype/events/widths/byte order/ranges not handed to the DATA ' \
+                      'reader on this offset path'
     return True
 
 
@@ -509,14 +514,15 @@ def replay_offsets(B, I):
     version = VERSIONS[I['vi']]
     hb, he, tb, te = I['hb'], I['he'], I['tb'], I['te']
     v3 = version in ('FCS3.0', 'FCS3.1')
-    events = [[1], [2], [3]]
-    path, lay = fcsgen.write_fcs(events, [16], big=True, version=version, return_layout=True)
+    events = [[1], [2], [65535]]          # last value has bits above the declared range 1024
+    path, lay = fcsgen.write_fcs(events, [16], big=True, version=version, return_layout=True,
+                                 ranges=[1024])
     # rewrite so that the requested side(s) carry the true offsets and the other side zeros
     true_b, true_e = lay['data_begin'], lay['data_end']
     use_header = hb != 0 and he != 0
     use_text = tb != 0 and te != 0
     os.unlink(path)
-    path = fcsgen.write_fcs(events, [16], big=True, version=version,
+    path = fcsgen.write_fcs(events, [16], big=True, version=version, ranges=[1024],
                             header_data=(true_b, true_e) if use_header else (hb and true_b, he and true_e),
                             text_data=(true_b, true_e) if use_text else (tb and true_b, te and true_e))
     try:
@@ -525,8 +531,11 @@ def replay_offsets(B, I):
         os.unlink(path)
     expect_ok = use_header or (v3 and use_text)
     if expect_ok:
-        if r[0] == 'ok' and r[1].data.tolist() == events:
+        if r[0] == 'ok' and r[1].data.tolist() == [[1], [2], [1023]]:
             return True
+        if r[0] == 'ok' and r[1].data.tolist() == events:
+            return False, 'offsets: datatype/events/widths/byte order/ranges not handed to the ' \
+                          'DATA reader on this offset path'
         return False, 'offsets: wrong offsets handed to the DATA reader (HEADER/TEXT priority)'
     if r[0] == 'exc' and r[1] == 'ValueError':
         return True
